@@ -377,6 +377,43 @@ pub(crate) fn image_model_big(src_a: &[u8; 3], src_b: &[u8; 2], junk: &[u8; 3]) 
     }
 }
 
+/// image 4 (for the glue harnesses of kani/vbaprojv.rs, REAL decompress_stream, dir-stream parsers modelled): stream "dir" = an empty
+/// container (SignatureByte only), stream "SB" = container of L(a0) L(a1) L(a2), stream "SA" = 3 junk bytes ++ container of
+/// L(b0) L(b1) C(2,3); decoy streams "A"/"B" = containers of other content.  All in the mini stream, one mini sector each.
+pub(crate) fn image_glue(src_a: &[u8; 3], src_b: &[u8; 2], junk: &[u8; 3], decoys: bool) -> Cfb {
+    let mut sb: Buf<32> = Buf::new();
+    compress(&[Tok::Lit(src_a[0]), Tok::Lit(src_a[1]), Tok::Lit(src_a[2])], &mut sb);
+    let mut sa: Buf<32> = Buf::new();
+    sa.push(junk[0]);
+    sa.push(junk[1]);
+    sa.push(junk[2]);
+    compress(&[Tok::Lit(src_b[0]), Tok::Lit(src_b[1]), Tok::Copy(2, 3)], &mut sa);
+    let mut mini = Mini::new();
+    let root = Directory { name: String::from("Root Entry"), start: ENDOFCHAIN, len: 0 };
+    let directories = if decoys {
+        let mut dc: Buf<32> = Buf::new();
+        compress(&[Tok::Lit(0x5A)], &mut dc);
+        let d_a = mini.add("A", &dc.b[..dc.n]);
+        let d_b = mini.add("B", &dc.b[..dc.n]);
+        let d_sa = mini.add("SA", &sa.b[..sa.n]);
+        let d_dir = mini.add("dir", &[0x01]);
+        let d_sb = mini.add("SB", &sb.b[..sb.n]);
+        Vec::from([root, d_a, d_b, d_sa, d_dir, d_sb])
+    } else {
+        let d_sa = mini.add("SA", &sa.b[..sa.n]);
+        let d_dir = mini.add("dir", &[0x01]);
+        let d_sb = mini.add("SB", &sb.b[..sb.n]);
+        Vec::from([root, d_sa, d_dir, d_sb])
+    };
+    Cfb {
+        directories,
+        sectors: Sectors::new(512, Vec::new()),
+        fats: Vec::new(),
+        mini_sectors: Sectors::new(64, mini.data.b[..mini.data.n].to_vec()),
+        mini_fats: mini.fat[..mini.nfat].to_vec(),
+    }
+}
+
 /// run the REAL from_cfb and compare with the format's meaning
 fn check_project(mut cfb: Cfb, src_a: &[u8], src_b: &[u8]) {
     let mut r: &[u8] = &[];
